@@ -34,7 +34,7 @@ def run_job(job):
         viol.append({"sig": "C16 " + sig, "what": "%s: %s" % (su, what)})
 
     with okv.Session(su) as s:
-        for wi in range(1 if tier == "quick" else 8):
+        for wi in range(1 if tier == "quick" else 25):
             rng = s.rng("r", proto.H("c16", su, job["seed"], wi))
             s.cmd("setup_new", rng=rng, out="S1")
             s.cmd("setup_new", rng=rng, out="S2")
